@@ -12,7 +12,7 @@ func TestBounded_C13(t *testing.T) {
 	cases := 0
 	seeds := 40
 	if bTier() == "thorough" {
-		seeds = 400
+		seeds = bScale(400)
 	}
 	univ := 64
 	for seed := 1; seed <= seeds; seed++ {
@@ -176,7 +176,7 @@ func TestBounded_C16(t *testing.T) {
 	cases := 0
 	seeds := 40
 	if bTier() == "thorough" {
-		seeds = 400
+		seeds = bScale(400)
 	}
 	univ := 96
 	for seed := 1; seed <= seeds; seed++ {
